@@ -14,6 +14,8 @@ fn main() {
         Some("locality") => std::process::exit(locality_case(&args[2], &args[3])),
         Some("config") => std::process::exit(config_case(&args[2..])),
         Some("comment") => std::process::exit(comment_case(&args[2], &args[3])),
+        Some("markdown") => std::process::exit(markdown_case(&args[2], &args[3], &args[4])),
+        Some("spell-cache") => std::process::exit(spell_cache_case(&args[2], &args[3])),
         Some("remove-overlaps-raw") => {
             // prints the identity tags of the surviving lints, in output order (translation validation of mirsym)
             let mut v = parse_lints(args.get(2).map(|s| s.as_str()).unwrap_or(""));
@@ -53,6 +55,18 @@ fn tiling_case(text: &str) -> i32 {
                 let digits_then_suffix = chars[t.span.start.min(len)..t.span.end.saturating_sub(2).min(len)].iter().all(|c| !c.is_alphabetic());
                 if got != want || !digits_then_suffix {
                     println!("VIOLATED: number token {i} {:?} carries suffix {:?} but its text is {:?}", t.span, sfx, chars[t.span.start.min(len)..t.span.end.min(len)].iter().collect::<String>());
+                    bad = 1;
+                }
+            }
+        }
+        if let TokenKind::Punctuation(harper_core::Punctuation::Quote(q)) = &t.kind {
+            if let Some(j) = q.twin_loc {
+                let back = match doc.get_tokens().get(j).map(|o| &o.kind) {
+                    Some(TokenKind::Punctuation(harper_core::Punctuation::Quote(o))) => o.twin_loc,
+                    _ => None,
+                };
+                if j == i || back != Some(i) {
+                    println!("VIOLATED: quote token {i} points at token {j} as its twin, which is not a quote pointing back");
                     bad = 1;
                 }
             }
@@ -418,5 +432,123 @@ fn remove_overlaps_case(spec: &str) -> i32 {
         }
     }
     println!("input {:?} -> kept {:?}", spans.iter().map(|s| (s.start, s.end)).collect::<Vec<_>>(), kept);
+    bad
+}
+
+
+/// A dictionary that knows no word and whose fuzzy matcher answers every query with exactly the queried word
+/// (distance 0): the suggestions for a word are then a function of that word as written - the same contract the
+/// symbolic kernel gives its stub.
+struct EchoDictionary;
+
+fn leaked_metadata() -> &'static harper_core::WordMetadata {
+    use std::sync::OnceLock;
+    static M: OnceLock<harper_core::WordMetadata> = OnceLock::new();
+    M.get_or_init(harper_core::WordMetadata::default)
+}
+
+impl harper_core::Dictionary for EchoDictionary {
+    fn contains_word(&self, _word: &[char]) -> bool {
+        false
+    }
+    fn contains_word_str(&self, _word: &str) -> bool {
+        false
+    }
+    fn contains_exact_word(&self, _word: &[char]) -> bool {
+        false
+    }
+    fn contains_exact_word_str(&self, _word: &str) -> bool {
+        false
+    }
+    fn fuzzy_match(&self, word: &[char], _max_distance: u8, _max_results: usize) -> Vec<harper_core::spell::FuzzyMatchResult> {
+        let w: &'static [char] = Box::leak(word.to_vec().into_boxed_slice());
+        vec![harper_core::spell::FuzzyMatchResult { word: w, edit_distance: 0, metadata: leaked_metadata() }]
+    }
+    fn fuzzy_match_str(&self, word: &str, max_distance: u8, max_results: usize) -> Vec<harper_core::spell::FuzzyMatchResult> {
+        let chars: Vec<char> = word.chars().collect();
+        self.fuzzy_match(&chars, max_distance, max_results)
+    }
+    fn get_correct_capitalization_of(&self, _word: &[char]) -> Option<&'_ [char]> {
+        None
+    }
+    fn get_word_metadata(&self, _word: &[char]) -> Option<&harper_core::WordMetadata> {
+        Some(leaked_metadata())
+    }
+    fn get_word_metadata_str(&self, _word: &str) -> Option<&harper_core::WordMetadata> {
+        Some(leaked_metadata())
+    }
+    fn words_iter(&self) -> Box<dyn Iterator<Item = &'_ [char]> + Send + '_> {
+        Box::new(std::iter::empty())
+    }
+    fn word_count(&self) -> usize {
+        0
+    }
+    fn get_word_from_id(&self, _id: &harper_core::WordId) -> Option<&[char]> {
+        None
+    }
+}
+
+/// C05 (spelling-suggestion cache): a long-lived SpellCheck that has looked up `w1` gives, for a document
+/// consisting of `w2`, exactly the lints of a fresh SpellCheck.
+fn spell_cache_case(w1: &str, w2: &str) -> i32 {
+    use harper_core::linting::{Linter, SpellCheck};
+    use harper_core::{Dialect, Document};
+    let d1 = Document::new_plain_english(w1, &EchoDictionary);
+    let d2 = Document::new_plain_english(w2, &EchoDictionary);
+    let mut warm = SpellCheck::new(EchoDictionary, Dialect::American);
+    let _ = warm.lint(&d1);
+    let got = warm.lint(&d2);
+    let mut fresh = SpellCheck::new(EchoDictionary, Dialect::American);
+    let want = fresh.lint(&d2);
+    println!("after {:?}: {:?} -> {:?}", w1, w2, got.iter().map(|l| (l.span, &l.suggestions, &l.message)).collect::<Vec<_>>());
+    if got != want {
+        println!("VIOLATED: a SpellCheck that saw {:?} first reports {:?} for {:?}; a fresh one reports {:?}", w1,
+                 got.iter().map(|l| (l.span, &l.suggestions, &l.message)).collect::<Vec<_>>(), w2,
+                 want.iter().map(|l| (l.span, &l.suggestions, &l.message)).collect::<Vec<_>>());
+        return 1;
+    }
+    0
+}
+
+
+/// C02 (Markdown front-end): a Markdown text that realises one inline construct (`kind`) whose source text is made of
+/// the characters `x` - repeated so that byte and char counts differ by a margin - at the very end of the text. The
+/// tokens of the real `Markdown` parser (real pulldown-cmark) must lie inside the text, in increasing, non-overlapping
+/// order (zero-width structural breaks aside).
+fn markdown_case(kind: &str, x: &str, ignore_link_title: &str) -> i32 {
+    use harper_core::parsers::{Markdown, MarkdownOptions, StrParser};
+    let extra: usize = x.chars().map(|c| c.len_utf8() - 1).sum();
+    let reps = if extra == 0 { 1 } else { 8 / extra + 1 };
+    let body: String = x.repeat(reps);
+    let text = match kind {
+        "text" => format!("a {body}"),
+        "code" => format!("a `{body}`"),
+        "inline_html" => format!("a <b title=\"{body}\">"),
+        "html" => format!("<div>{body}</div>"),
+        "softbreak" => format!("{body}\nb"),
+        "hardbreak" => format!("{body}  \nb"),
+        "link" => format!("[{body}](u)"),
+        other => panic!("unknown construct {other}"),
+    };
+    let mut opts = MarkdownOptions::default();
+    opts.ignore_link_title = ignore_link_title == "true";
+    let toks = Markdown::new(opts).parse_str(&text);
+    let len = text.chars().count();
+    let mut bad = 0;
+    let mut prev_end = 0;
+    for (i, t) in toks.iter().enumerate() {
+        if t.span.start > t.span.end || t.span.end > len {
+            println!("VIOLATED: token {i} {:?} has span {:?} in a text of {len} chars", t.kind, t.span);
+            bad = 1;
+        }
+        if t.span.start != t.span.end {
+            if t.span.start < prev_end {
+                println!("VIOLATED: token {i} {:?} at {:?} overlaps the previous token, which ended at {prev_end}", t.kind, t.span);
+                bad = 1;
+            }
+            prev_end = t.span.end;
+        }
+    }
+    println!("markdown {:?} (ignore_link_title={}): {:?}", text, opts.ignore_link_title, toks.iter().map(|t| (t.span.start, t.span.end)).collect::<Vec<_>>());
     bad
 }
